@@ -1500,12 +1500,38 @@ func (fc *fnCtx) closeLoop(li *loopInfo, st *State, from *ssa.BasicBlock) {
 		fc.oblige(st, "loop-preserved", fc.loopClauseName(li, "preserved", i, inv)+suffix, g, "loop invariant preserved: "+inv.Text, token.NoPos, true)
 	}
 	for i, sc := range li.spec.Steps {
-		// old(e) is e at the start of this iteration (the loop head, invariants assumed)
+		// old(e) is e at the start of this iteration (the loop head, invariants assumed).
+		// Names resolve as at the textual end of the loop body (several locals of the function may
+		// share a name: the one in scope there is meant).
+		savePos := fc.top.curPos
+		var last token.Pos
+		for b := range li.blocks {
+			for _, ins := range b.Instrs {
+				if p := ins.Pos(); p.IsValid() && p > last {
+					last = p
+				}
+			}
+		}
+		if last.IsValid() {
+			fc.top.curPos = last
+		}
 		env := fc.specEnv(st, nil)
+		var head *SpecEnv
 		if li.hdrState != nil {
-			head := fc.specEnv(li.hdrState, nil)
+			head = fc.specEnv(li.hdrState, nil)
+		}
+		fc.top.curPos = savePos
+		if li.hdrState != nil {
 			env.old = li.hdrState
 			env.oldVars = head.vars
+			// the key / value variables of a range loop are assigned at the top of the body: inside
+			// old(..) they still denote THIS iteration's element (old(m[k]) is the entry of the
+			// current key in the state the iteration started from)
+			for name := range rangeVarsOf(li) {
+				if v, ok := env.vars[name]; ok {
+					env.oldVars[name] = v
+				}
+			}
 		}
 		g, err := env.goal(sc.Expr)
 		if err != nil {
@@ -2352,6 +2378,61 @@ func (fc *fnCtx) execSlice(st *State, x *ssa.Slice) {
 		fc.noteImprecise("slice of %s", x.X.Type())
 		fc.vals[x] = fc.freshVal(st, x.Name(), x.Type())
 	}
+}
+
+// rangeVarsOf returns the source names of the key / value variables of a range loop: the locals stored at
+// the top of its body block, before the first call.
+func rangeVarsOf(li *loopInfo) map[string]bool {
+	out := map[string]bool{}
+	if !strings.HasPrefix(li.header.Comment, "range") || len(li.header.Succs) == 0 {
+		return out
+	}
+	body := li.header.Succs[0]
+	if !li.blocks[body] {
+		return out
+	}
+	// a value comes from the range when it is the hidden index, an element read at the hidden index,
+	// or a component of the iterator's Next
+	isIdx := func(v ssa.Value) bool {
+		ld, ok := v.(*ssa.UnOp)
+		if !ok || ld.Op != token.MUL {
+			return false
+		}
+		a, ok := ld.X.(*ssa.Alloc)
+		return ok && a.Comment == "rangeindex"
+	}
+	fromRange := func(v ssa.Value) bool {
+		switch x := v.(type) {
+		case *ssa.Extract:
+			_, ok := x.Tuple.(*ssa.Next)
+			return ok
+		case *ssa.Index:
+			return isIdx(x.Index)
+		case *ssa.UnOp:
+			if isIdx(x) {
+				return true
+			}
+			if x.Op == token.MUL {
+				if ia, ok := x.X.(*ssa.IndexAddr); ok {
+					return isIdx(ia.Index)
+				}
+			}
+		}
+		return false
+	}
+	for _, ins := range body.Instrs {
+		switch x := ins.(type) {
+		case *ssa.Store:
+			if a, ok := x.Addr.(*ssa.Alloc); ok && a.Comment != "" && a.Comment != "rangeindex" && fromRange(x.Val) {
+				out[a.Comment] = true
+			}
+		case *ssa.Call:
+			if _, isB := x.Call.Value.(*ssa.Builtin); !isB {
+				return out
+			}
+		}
+	}
+	return out
 }
 
 // arrWindow marks the value of `a[lo:hi]` for an array a held by value whose only use is
